@@ -1023,6 +1023,9 @@ fn run_case_in_child(path: &str, timeout_s: u64) -> (String, String, String) {
 
 fn do_replay(path: &str) -> i32 {
     let v = simcore::read_json(path);
+    if v["engine"].as_str().map(|e| e.contains("time-proportionality")).unwrap_or(false) {
+        return crate::c05_scale::replay(path);
+    }
     let want_sig = v["signature"].as_str().unwrap_or("").to_string();
     let want_hash = v["event_hash"].as_str().unwrap_or("").to_string();
     let (sig, hash, detail) = run_case_in_child(path, 60);
@@ -1183,7 +1186,7 @@ fn all_threads_sleeping(pid: u32) -> bool {
 /// Progress watch for one child on one run: stalled when it has burnt more than `limit` CPU
 /// seconds on it, or has been blocked (all threads asleep, CPU counter unchanged) for `limit`
 /// seconds, or, as an outer bound, after WALL_FACTOR x `limit` seconds of wall-clock time.
-struct Watch {
+pub(crate) struct Watch {
     since: std::time::Instant,
     cpu_at_start: f64,
     cpu_last: f64,
@@ -1191,12 +1194,12 @@ struct Watch {
 }
 
 impl Watch {
-    fn new(pid: u32) -> Watch {
+    pub(crate) fn new(pid: u32) -> Watch {
         let c = cpu_seconds(pid).unwrap_or(0.0);
         let now = std::time::Instant::now();
         Watch { since: now, cpu_at_start: c, cpu_last: c, cpu_last_at: now }
     }
-    fn stalled(&mut self, pid: u32, limit: u64) -> bool {
+    pub(crate) fn stalled(&mut self, pid: u32, limit: u64) -> bool {
         let wall = self.since.elapsed().as_secs();
         if wall <= limit {
             return false;
@@ -1221,6 +1224,15 @@ fn on_case_thread<F: FnOnce() -> i32 + Send + 'static>(f: F) -> i32 {
 }
 
 pub fn main(args: &Args) -> i32 {
+    if let Some(shape) = args.value("--scale-child") {
+        let n = args.num("--n").unwrap_or(1000) as usize;
+        let seed = args.num("--seed").unwrap_or(1);
+        let shape = shape.to_string();
+        return on_case_thread(move || crate::c05_scale::child(&shape, n, seed));
+    }
+    if args.flag("--scale-stage") {
+        return crate::c05_scale::stage(args);
+    }
     if args.flag("--child") {
         let a = Args(args.0.clone());
         return on_case_thread(move || child_main(&a));
